@@ -10,12 +10,12 @@ From C33 Require Import C22.Model C22.Spec C22.Proofs C22.ProofsRefute.
 Import ListNotations.
 Open Scope Z_scope.
 
-Theorem C22_admitted_implies_acceptable_partial : forall c p s p',
+Theorem C22_accepted_implies_acceptable_partial : forall c p s p',
   cfg_ok c -> pipeline c p (STx s) = (R_OK, p') ->
   g_fwd s && g_wrap s && g_fee c s && g_hdr s = true ->
   acceptable c p s = true.
-Proof. exact admitted_partial. Qed.
-Print Assumptions C22_admitted_implies_acceptable_partial.
+Proof. exact accepted_partial. Qed.
+Print Assumptions C22_accepted_implies_acceptable_partial.
 
 Theorem C22_group_members_checked : forall c p s ms ok p',
   pipeline c p (STx s) = (R_OK, p') -> s_forward s = false -> s_shape s = Group ms ok ->
@@ -33,18 +33,18 @@ Theorem C22_rejected_leaves_pool_unchanged : forall c p m r p',
 Proof. exact rejected_unchanged. Qed.
 Print Assumptions C22_rejected_leaves_pool_unchanged.
 
-Theorem C22_admitted_appends_one : forall c p m p',
+Theorem C22_accepted_appends_one : forall c p m p',
   pipeline c p m = (R_OK, p') ->
   exists s, m = STx s /\ p' = p ++ [s_outer s] /\ c_synced c = true
             /\ count_sender p (t_sender (s_outer s)) < c_persender c /\ pool_size p < c_cap c.
-Proof. exact admitted_appends. Qed.
-Print Assumptions C22_admitted_appends_one.
+Proof. exact accepted_appends. Qed.
+Print Assumptions C22_accepted_appends_one.
 
-(** the statement at full strength ([C22_admitted_implies_acceptable_full], ProofsRefute.v:
+(** the statement at full strength ([C22_accepted_implies_acceptable_full], ProofsRefute.v:
     no guard), and why each guard is there *)
-Theorem C22_admitted_implies_acceptable_refuted : ~ C22_admitted_implies_acceptable_full.
+Theorem C22_accepted_implies_acceptable_refuted : ~ C22_accepted_implies_acceptable_full.
 Proof. exact refuted_full. Qed.
-Print Assumptions C22_admitted_implies_acceptable_refuted.
+Print Assumptions C22_accepted_implies_acceptable_refuted.
 
 Theorem C22_refuted_forward :
   ~ (forall c p s p', cfg_ok c -> pipeline c p (STx s) = (R_OK, p') ->
